@@ -72,6 +72,15 @@ Theorem C18_extension_total :
 Proof. exact extension_total. Qed.
 Print Assumptions C18_extension_total.
 
+Theorem C18_extension_of_plain :
+  forall (F : Type) (parse_flt : str -> res F) (parse_int : str -> res Z) (eps0 : F) (plus_eps : F -> F)
+         (name : str) (lines cl : list (list str)) (sb : list (list (hblock F))) (ends : list (Z * F)),
+  get_blocks F parse_flt parse_int eps0 plus_eps name lines None = Ok sb ->
+  chrom_ends F parse_flt parse_int cl [] = Ok ends ->
+  get_blocks F parse_flt parse_int eps0 plus_eps name lines (Some cl) = C18_Model.mapM (ext_strand F false ends) sb.
+Proof. exact extension_of_plain. Qed.
+Print Assumptions C18_extension_of_plain.
+
 (* the pinned tree wrote the final chromosome's end to index tind - 1 *)
 Theorem C18_legacy_extension_refuted :
   let l := [mkhb [89] 2 0 10; mkhb [67] 2 11 20] in
@@ -115,3 +124,14 @@ Theorem C18_holds_blocks_absent_sound :
   expectation (b_tab k) (b_name k) (b_lines k) (b_cen k) = Some None -> b_obs k = Ok [].
 Proof. exact holds_blocks_absent_sound. Qed.
 Print Assumptions C18_holds_blocks_absent_sound.
+
+(* the sections the checker cuts out of a file of the shape quantified over in
+   C18_blocks_are_samples_lines are the sample's two sections *)
+Theorem C18_sections_of_sample :
+  forall (name : str) (pre l1 l2 post : list (list str)),
+  Forall (foreign_header name) pre -> Forall not_header l1 -> Forall not_header l2 ->
+  (post = [] \/ exists h r, post = [h] :: r) ->
+  let file := pre ++ [name ++ sfx_1] :: l1 ++ [name ++ sfx_2] :: l2 ++ post in
+  section_of (name ++ sfx_1) file = Some l1 /\ section_of (name ++ sfx_2) file = Some l2.
+Proof. exact sections_of_sample. Qed.
+Print Assumptions C18_sections_of_sample.
